@@ -17,6 +17,8 @@ Proof. destruct a; reflexivity. Qed.
    well-formed file would override it *)
 Lemma malformed_inline o f : plan (Subcommand (T "convert") o) IMalformed f = OError EJsonDecode.
 Proof. reflexivity. Qed.
+Lemma is_subcommand n : existsb (text_eqb n) subcommands = text_eqb n (T "convert").
+Proof. unfold subcommands. cbn [existsb]. apply orb_false_r. Qed.
 (* the effective configuration is the specification's: the file if given, else the inline one *)
 Lemma load_config_effective i f d : load_config i f = Ok d -> d = effective i f.
 Proof. destruct i, f; cbn; intro H; inversion H; reflexivity. Qed.
@@ -62,7 +64,7 @@ Lemma apply_filters_names names data fs :
 Proof. intro H. rewrite (apply_filters_spec _ _ _ H). apply names_of_map. Qed.
 
 (* ---- inversion of a successful conversion plan *)
-Definition general_of (data : option json) : option (json * json * json) :=
+Definition general_of (data : option json) : option (json * bool * json) :=
   match read_config "general" parse_general data with Ok g => g | Raise _ => None end.
 Lemma convert_ok o i f p :
   convert o i f = Ok p ->
@@ -92,7 +94,7 @@ Lemma filters_order n o i f p :
   plan (Subcommand n o) i f = OPlan p ->
   List.map filter_name (p_filters p) = List.filter spec_known_filter (o_filters o).
 Proof.
-  unfold plan. destruct (text_eqb n (T "convert")); [|discriminate].
+  unfold plan. rewrite is_subcommand. destruct (text_eqb n (T "convert")); [|discriminate].
   destruct (convert o i f) eqn:C; [|discriminate]. intro H; inversion H; subst.
   destruct (convert_ok _ _ _ _ C) as (rt & wt & _ & _ & _ & _ & _ & _ & F & _).
   rewrite (apply_filters_names _ _ _ F). apply filter_ext. intro x. apply known_filter_spec.
@@ -104,7 +106,7 @@ Lemma lang_override n o i f p :
   plan (Subcommand n o) i f = OPlan p ->
   p_lang p = match general_of (effective i f) with Some (_, _, JStr s) => Some s | _ => None end.
 Proof.
-  unfold plan. destruct (text_eqb n (T "convert")); [|discriminate].
+  unfold plan. rewrite is_subcommand. destruct (text_eqb n (T "convert")); [|discriminate].
   destruct (convert o i f) eqn:C; [|discriminate]. intro H; inversion H; subst.
   destruct (convert_ok _ _ _ _ C) as (rt & wt & _ & _ & _ & _ & _ & _ & _ & L). exact L.
 Qed.
@@ -116,7 +118,7 @@ Lemma help_no_output i f : plan NoSubcommand i f = OHelp /\ output_action NoSubc
 Proof. split; reflexivity. Qed.
 Lemma unknown_subcommand n o i f : n <> T "convert" -> plan (Subcommand n o) i f = OError EExitUsage.
 Proof.
-  intro H. unfold plan. destruct (text_eqb n (T "convert")) eqn:E; [|reflexivity].
+  intro H. unfold plan. rewrite is_subcommand. destruct (text_eqb n (T "convert")) eqn:E; [|reflexivity].
   apply text_eqb_eq in E. contradiction.
 Qed.
 (* an output action exists only for `convert`, with both types resolved, a writable output type and
@@ -128,7 +130,7 @@ Lemma output_only_if_valid a i f path w :
     get_file_type (o_otype o) (splitext (o_output o)) = Ok (writer_type w) /\ writable (writer_type w) = true /\
     sources_ok i f = true.
 Proof.
-  destruct a as [|n o]; [discriminate|]. unfold plan.
+  destruct a as [|n o]; [discriminate|]. unfold plan. rewrite is_subcommand.
   destruct (text_eqb n (T "convert")) eqn:N; [|discriminate].
   destruct (convert o i f) eqn:C; [|discriminate]. cbn [output_action]. intro H; inversion H; subst.
   destruct (convert_ok _ _ _ _ C) as (rt & wt & R & W & <- & <- & Wr & S & _).
